@@ -4,9 +4,20 @@
 
 package common
 
+//@ -- SnapSrc(s): identity of the snapshot object at s as a payload carrier -- for an object returned by UnmarshalVersionedSnapshot the id
+//@ -- (kvval) of the byte string it was decoded from (a fact about the allocation, hence a function of the pointer), otherwise an arbitrary
+//@ -- number. SnapPH: the payload hash as a function of that identity and of the scalar payload fields.
+//@ -- ASSUMPTION behind [deterministic] (added for C35): PayloadHash is Blake3 over the encoding of Version, NodeId, RoundNumber, References,
+//@ -- Transactions, Timestamp, so two calls on the same object agree unless a payload field was written in between; the clause makes the
+//@ -- scalar fields and the transaction COUNT explicit and assumes that *s.References and the elements of s.Transactions are not
+//@ -- overwritten in place between two hash computations that a proof compares (nothing in the repository does that: the slice only grows
+//@ -- by AddTransaction, References is replaced as a whole).
+//@ uninterp SnapSrc(s *Snapshot) mathint
+//@ uninterp SnapPH(src mathint, node crypto.Hash, round mathint, ts mathint, ntx mathint) crypto.Hash
 //@ assume func (s *Snapshot) PayloadHash
 //@   requires s != nil && s.Version == SnapshotVersionCommonEncoding
 //@   modifies nothing
+//@   ensures [deterministic] result == SnapPH(SnapSrc(s), s.NodeId, s.RoundNumber, s.Timestamp, len(s.Transactions))
 
 // ───────────── round.go (C19, C18) ─────────────
 
